@@ -1556,6 +1556,10 @@ fn env_probe_cmd(out: &Path, extra: &str) -> String {
     for v in ENV_PROBE_VARS {
         s.push_str(&format!("echo \"{}=${{{}-<unset>}}\"; ", v, v));
     }
+    // (... and what a process started by the test case finds in its environment)
+    for v in ENV_PROBE_VARS {
+        s.push_str(&format!("echo \"env:{}=$(printenv {} || echo '<not in environment>')\"; ", v, v));
+    }
     s.push_str("echo \"PWD=$(pwd -P)\"; [ -d \"$TMPDIR\" ] && echo TMPDIR_IS_DIR=1; ");
     s.push_str(&format!("}} > '{}' 2>&1{}", out.display(), extra));
     s
@@ -1591,7 +1595,17 @@ fn check_env_case(c: &EnvCase) -> Result<Option<String>, String> {
             // (the last document's state-changing test case also unsets SCRUT_TEST: the next one
             // must get a fresh one all the same - finding AC)
             let extra = if c.state_change_at == Some(k) {
-                if d + 1 == c.n_docs && md { "; VS_USER=carried; vs_fn() { :; }; alias vs_al=true; unset SCRUT_TEST" } else { "; VS_USER=carried; vs_fn() { :; }; alias vs_al=true" }
+                if d + 1 == c.n_docs && md {
+                    // (... or takes its export attribute away, or gives it a value of its own)
+                    [
+                        "; VS_USER=carried; vs_fn() { :; }; alias vs_al=true; unset SCRUT_TEST",
+                        "; VS_USER=carried; vs_fn() { :; }; alias vs_al=true; export -n SCRUT_TEST",
+                        "; VS_USER=carried; vs_fn() { :; }; alias vs_al=true; declare +x SCRUT_TEST",
+                        "; VS_USER=carried; vs_fn() { :; }; alias vs_al=true; SCRUT_TEST=mine",
+                    ][(c.n_docs + c.n_tests + k + if c.dirmode == "tmp" { 0 } else { 1 }) % 4]
+                } else {
+                    "; VS_USER=carried; vs_fn() { :; }; alias vs_al=true"
+                }
             } else {
                 ""
             };
@@ -1687,6 +1701,10 @@ fn check_env_case(c: &EnvCase) -> Result<Option<String>, String> {
             for (key, val) in &want {
                 if g(key) != val {
                     wrong.push(format!("document {} test {}: sees {}={:?}, documented {:?}", d, k, key, g(key), val));
+                }
+                let in_env = format!("env:{}", key);
+                if g(&in_env) != val {
+                    wrong.push(format!("document {} test {}: a process it starts finds {}={:?} in its environment, documented {:?}", d, k, key, g(&in_env), val));
                 }
             }
             if canon(Path::new(g("TESTDIR"))) != canon(path.parent().unwrap()) {
